@@ -157,11 +157,23 @@ DetachedIds(ch, k) == { ch[i].id : i \in (Len(ch) - k + 1)..Len(ch) }
 AttachedTxs(blks) == UNION { blks[i].commits : i \in 1..Len(blks) }
 \* pooled transactions a committed set makes invalid: they spend, or dep on, a cell the committed ones spend
 ConflictsOf(att, P) == { c \in P \ att : (Ins[c] \cup Deps[c]) \cap SpentBy(att) # {} }
+\* Each committed transaction is taken out on its own (its pooled descendants stay: their parent is on chain now),
+\* then its conflicts go with *their* descendants.
 AfterCommit(P, ch, k, blks) ==
   LET att == AttachedTxs(blks)
-      P1  == P \ DescOf(ConflictsOf(att, P), P)                                    \* remove_committed_tx
+      P0  == P \ att
+      P1  == P0 \ DescOf(ConflictsOf(att, P), P0)                                   \* remove_committed_tx
       P2  == P1 \ DescOf({ t \in P1 : HDeps[t] \cap DetachedIds(ch, k) # {} }, P1)  \* resolve_conflict_header_dep
-  IN  P2 \ att
+  IN  P2
+\* The block's transactions are processed one after the other: a conflict's descendants are collected while later
+\* transactions of the same block are still pooled, so descendants *through* such a transaction (a cell-dep user that
+\* conflicts, the committed spender of that cell, and the spender's pooled children) may be dropped as well.
+OverRemoved(P, ch, k, blks) ==
+  LET att == AttachedTxs(blks) IN (P \ att) \cap DescOf(ConflictsOf(att, P), P)
+\* pooled transactions with an input or dep that exists neither on chain ch nor in the pool (repeatedly)
+RECURSIVE Purge(_, _)
+Purge(P, ch) == LET bad == { t \in P : \E o \in Ins[t] \cup Deps[t] : ~(Creator(o) \in P \/ LiveOnChain(o, ch)) }
+                IN IF bad = {} THEN P ELSE Purge(P \ bad, ch)
 ReorgRel(k, blks, expirable, P, ch, cf, P2) ==
   LET Base  == AfterCommit(P, ch, k, blks)
       cand  == DetachedTxs(ch, k) \ AttachedTxs(blks)
@@ -169,7 +181,9 @@ ReorgRel(k, blks, expirable, P, ch, cf, P2) ==
       Mid   == Base \cup Readd
       X     == (Mid \ P2) \cap expirable                \* expired
       XD    == (Mid \ P2) \cap DescOf(X, Mid)           \* ... possibly with descendants
-      E     == (Mid \ P2) \ XD                          \* evicted by limit_size
+      OR    == Mid \ Purge(Mid, NewChain(ch, k, blks))  \* orphaned by the reorg: may (should, C12) be dropped
+      OV    == OverRemoved(P, ch, k, blks)
+      E     == (((Mid \ P2) \ XD) \ OR) \ OV            \* evicted by limit_size
   IN  /\ k <= Len(ch) /\ Len(blks) >= 1
       /\ Readd \subseteq cand \ P                      \* only transactions of the abandoned branch come back
       /\ E # {} => PoolSize(Mid \ XD) > cf.maxSize
@@ -256,12 +270,15 @@ Readmit(cand, P, ch, cf) ==
   IN IF ok = {} THEN P ELSE Readmit(cand, P \cup ok, ch, cf)
 IntendedAfterReorg(P, ch, k, blks, cf) ==
   Readmit(DetachedTxs(ch, k) \ AttachedTxs(blks), AfterCommit(P, ch, k, blks), NewChain(ch, k, blks), cf)
-\* checked in the state right after the pool processed a reorg (`last` remembers the state before)
+\* Checked in the state right after the pool processed a reorg (`last` remembers the state before): no transaction of
+\* the abandoned branch that is still admissible - resolves against the new chain plus the pool as it is now, within
+\* the ancestor limit - was left out.  (Which of two mutually exclusive ones comes back depends on the order of
+\* re-admission, which the property does not fix; that the ones that did come back are valid is NoDeadOrUnknown /
+\* NoDoubleSpend / NoCommitted.)
 DetachedReadmitted ==
   (last.op = "reorg") =>
-     LET cand == (DetachedTxs(last.chainBefore, last.k) \ AttachedTxs(last.blks)) \ last.before
-         want == IntendedAfterReorg(last.before, last.chainBefore, last.k, last.blks, conf)
-     IN  cand \cap pool = cand \cap want
+     LET cand == DetachedTxs(last.chainBefore, last.k) \ AttachedTxs(last.blks)
+     IN  \A d \in cand \ pool : ~(Resolvable(d, pool \cup {d}, chain) /\ AncCount(d, pool \cup {d}) <= conf.maxAnc)
 \* on a node configured for block assembly every entry's stage is where its id stands in the proposal window
 StageMatchesWindow == conf.mine => \A t \in pool : st[t] = Stage(t, chain, conf)
 =============================================================================
